@@ -719,6 +719,14 @@ class Evaluator:
         return self._comp("dict", [e.key, e.value], e.generators)
 
     def e_Call(self, e):
+        # Option.is_none() is the negation of Option.is_some() (one canonical test)
+        if isinstance(e.func, ast.Attribute) and e.func.attr == "is_none" \
+                and not e.args and not e.keywords:
+            twin = ast.Call(func=ast.Attribute(value=e.func.value, attr="is_some",
+                                               ctx=ast.Load()), args=[], keywords=[])
+            ast.copy_location(twin, e)
+            ast.copy_location(twin.func, e.func)
+            return not_(self.e_Call(twin))
         f = self.expr(e.func)
         args = tuple(self.expr(a) for a in e.args)
         kwargs = []
